@@ -15,7 +15,7 @@ RULE = ("PUBO / PCBO / PUSO / PCSO models (2-6 variables, degree up to 5, labels
         "through to_pubo(deg) / to_qubo / to_quso / to_puso(deg) with deg in {None, 2..5}, penalty None / constant small and "
         "large / callable, pairs hints incl. unknown labels; non-trivial = at least one reduction needed (degree > target); "
         "distinct by canonical JSON")
-THEOREMS = ""
+THEOREMS = "C01_core C01_extension C01_lower C01_lower_default C01_minimiser C01_degree C01_to_quso C01_to_puso C01_spin_extension C01_spin_lower C01_step"
 MODELLED = ("callable penalties come from a fixed menu; the spin route multiplies by float constants (exact on the dyadic "
             "coefficients generated)")
 
